@@ -3826,6 +3826,7 @@ evhttp_dispatch_callback(struct httpcbq *callbacks, struct evhttp_request *req)
 {
 	struct evhttp_cb *cb;
 	size_t offset = 0;
+	size_t translated_len;
 	char *translated;
 	const char *path;
 
@@ -3834,11 +3835,13 @@ evhttp_dispatch_callback(struct httpcbq *callbacks, struct evhttp_request *req)
 	offset = strlen(path);
 	if ((translated = mm_malloc(offset + 1)) == NULL)
 		return (NULL);
-	evhttp_decode_uri_internal(path, offset, translated,
-	    0 /* decode_plus */);
+	translated_len = (size_t)evhttp_decode_uri_internal(path, offset,
+	    translated, 0 /* decode_plus */);
 
 	TAILQ_FOREACH(cb, callbacks, next) {
-		if (!strcmp(cb->what, translated)) {
+		/* compare the whole decoded path: it may contain %00 */
+		if (strlen(cb->what) == translated_len &&
+		    !memcmp(cb->what, translated, translated_len)) {
 			mm_free(translated);
 			return (cb);
 		}
